@@ -122,6 +122,10 @@ func worker(jobFile string) int {
 	if job.Race && job.Start%2 == 1 {
 		world.InstallRealLogger()
 	}
+	if job.Prop == "C07" && job.Start%2 == 1 {
+		// half of C07's workers run with a logger level above Panic: duplicates are dropped silently
+		world.InstallSilentLogger()
+	}
 	prog, err := os.OpenFile(job.Progress, os.O_CREATE|os.O_WRONLY|os.O_APPEND, 0o644)
 	if err != nil {
 		fmt.Fprintln(os.Stderr, err)
